@@ -2195,7 +2195,11 @@ func opcodeCheckMultiSig(op *ParsedOpcode, t *thread) error {
 
 		rawSig := sigInfo.signature
 		if len(rawSig) == 0 {
-			// Skip to the next pubkey if signature is empty.
+			// Skip to the next pubkey if signature is empty. The pubkey
+			// it is paired with must still be well encoded.
+			if err := t.checkPubKeyEncoding(pubKey); err != nil {
+				return err
+			}
 			continue
 		}
 
@@ -2203,8 +2207,7 @@ func opcodeCheckMultiSig(op *ParsedOpcode, t *thread) error {
 		shf := sighash.Flag(rawSig[len(rawSig)-1])
 		signature := rawSig[:len(rawSig)-1]
 
-		// Only parse and check the signature encoding once.
-		var parsedSig *bec.Signature
+		// Only check the signature encoding once.
 		if !sigInfo.parsed {
 			if err := t.checkHashTypeEncoding(shf); err != nil {
 				return err
@@ -2212,7 +2215,17 @@ func opcodeCheckMultiSig(op *ParsedOpcode, t *thread) error {
 			if err := t.checkSignatureEncoding(signature); err != nil {
 				return err
 			}
+		}
 
+		// The pubkey paired with the signature must be well encoded whether
+		// or not the signature turns out to be usable.
+		if err := t.checkPubKeyEncoding(pubKey); err != nil {
+			return err
+		}
+
+		// Only parse the signature once.
+		var parsedSig *bec.Signature
+		if !sigInfo.parsed {
 			// Parse the signature.
 			var err error
 			if t.hasAny(scriptflag.VerifyStrictEncoding, scriptflag.VerifyDERSignatures) {
@@ -2235,10 +2248,6 @@ func opcodeCheckMultiSig(op *ParsedOpcode, t *thread) error {
 
 			// Use the already parsed signature.
 			parsedSig = sigInfo.parsedSignature
-		}
-
-		if err := t.checkPubKeyEncoding(pubKey); err != nil {
-			return err
 		}
 
 		// Parse the pubkey.
